@@ -1,7 +1,9 @@
 (* C06 - Strand symmetry when unstranded, strand separation when stranded.
    This file collects the parts: the filter half is in Properties/C06Filter.v (k-mer table);
-   the graph half is to be added next to it. *)
+   the graph half (partition, payloads, links of the finished graph; direct / sharded / re-compressed pipelines)
+   is in Properties/C06Graph.v. *)
 From DBG Require Export Properties.C06Filter.
+From DBG Require Export Properties.C06Graph.
 
 Print Assumptions C06_keys_canonical.
 Print Assumptions C06_keys_complete.
@@ -11,3 +13,11 @@ Print Assumptions C06_filter_rc_count_filter.
 Print Assumptions C06_filter_rc_count_filter_set.
 Print Assumptions C06_count_filter_perm.
 Print Assumptions C06_count_filter_set_perm.
+Print Assumptions C06_retained_flip.
+Print Assumptions C06_spec_links_flip.
+Print Assumptions C06_kmer_colour_flip.
+Print Assumptions C06_assembly_of_flip.
+Print Assumptions C06_graph_rc_invariant_partial.
+Print Assumptions C06_chk_assembly_rc.
+Print Assumptions C06_stranded_exact_graph.
+Print Assumptions C06_chk_graph_exact_sound.
